@@ -11,6 +11,10 @@
 //!   /cut/<k>/<pieces>/...       200, Content-Length = FULL length, only the first k body bytes are
 //!                               sent (the pieces that fit, then the rest up to k), then the
 //!                               connection is closed
+//!   /okclose/<pieces>/...       200 WITHOUT Content-Length and without chunked encoding (`Connection: close`:
+//!                               the body ends where the connection ends), complete body, orderly close
+//!   /cutclose/<k>/<pieces>/...  the same framing, only the first k body bytes, then the same orderly close:
+//!                               no HTTP client can tell this answer from a complete one by its framing
 //!   /status/<code>/...          status <code> with a small body (Content-Length correct);
 //!                               3xx carries a Location header pointing at /ok/1/
 //!   /stall/none/...             request is read, nothing is ever sent
@@ -127,6 +131,11 @@ fn head(code: u32, len: usize, extra: &str) -> String {
     )
 }
 
+/// 200 whose body is delimited by the end of the connection (RFC 9112 section 6.3, case 8)
+fn head_close() -> String {
+    "HTTP/1.1 200 OK\r\nServer: rv-httpd\r\nContent-Type: application/json\r\nConnection: close\r\n\r\n".to_string()
+}
+
 fn num(parts: &[&str], i: usize, default: usize) -> usize {
     parts.get(i).and_then(|x| x.parse::<usize>().ok()).unwrap_or(default)
 }
@@ -138,7 +147,7 @@ fn handle(mut s: TcpStream, cfg: Arc<Cfg>) {
         None => return,
     };
     let mut parts: Vec<&str> = path.split('/').filter(|x| !x.is_empty()).collect();
-    let known = ["ok", "cut", "status", "stall"];
+    let known = ["ok", "cut", "status", "stall", "okclose", "cutclose"];
     let dflt: Vec<&str> = cfg.default_mode.split('/').filter(|x| !x.is_empty()).collect();
     if parts.is_empty() || !known.contains(&parts[0]) {
         parts = dflt;
@@ -161,6 +170,17 @@ fn handle(mut s: TcpStream, cfg: Arc<Cfg>) {
                 sent_body = send_pieces(&mut s, body, k, pieces);
             }
             // give the client a moment to drain what was sent, then cut
+            std::thread::sleep(PAUSE);
+        }
+        "okclose" | "cutclose" => {
+            let cut = parts[0] == "cutclose";
+            let k = if cut { num(&parts, 1, 0).min(body.len()) } else { body.len() };
+            let pieces = num(&parts, if cut { 2 } else { 1 }, 1);
+            if s.write_all(head_close().as_bytes()).is_ok() {
+                let _ = s.flush();
+                sent_body = send_pieces(&mut s, body, k, pieces);
+            }
+            // the end of the body is the end of the connection: an orderly shutdown (FIN) below
             std::thread::sleep(PAUSE);
         }
         "status" => {
